@@ -545,3 +545,231 @@ def obl_phonetic_glue(check, max_n, budget_s=None):
         if worst[st] > worst[status]:
             status = st
     check.obligation(name, "mirsym", status, detail + "; %d counterexample models" % len(vio))
+
+
+# ------------------------------------------------------------------------- C10: user files in any state
+
+def io_overrides(st, ctx):
+    """Operating system and serde_json as nondeterministic oracles: every call may fail."""
+    from mirsym.values import err, ok
+
+    def decide(name):
+        n = ctx["io_n"] = ctx.get("io_n", 0) + 1
+        b = z3.Bool("io%d_%s_ok" % (n, name))
+        good = st.choose([b, z3.Not(b)]) == 0
+        ctx.setdefault("io_log", []).append((name, good))
+        return good
+
+    def fs_read(it, args, callee):
+        return ok(Opaque("bytes", ("file",))) if decide("fs_read") else err(Opaque("io::Error"))
+
+    def from_slice(it, args, callee):
+        if decide("from_slice"):
+            m = SMap("loaded%d" % ctx["io_n"], [])
+            ctx.setdefault("loaded", []).append(m)
+            return ok(m)
+        return err(Opaque("serde_json::Error"))
+
+    def file_open(it, args, callee):
+        return ok(Opaque("File")) if decide("file_open") else err(Opaque("io::Error"))
+
+    def metadata(it, args, callee):
+        return ok(Opaque("Metadata")) if decide("metadata") else err(Opaque("io::Error"))
+
+    def modified(it, args, callee):
+        if decide("modified"):
+            n = ctx["io_n"]
+            return ok(Opaque("time", st.sym_bv("mtime%d" % n, 64)))
+        return err(Opaque("io::Error"))
+
+    def meta_len(it, args, callee):
+        return st.sym_bv("flen%d" % ctx.get("io_n", 0), 64)
+
+    def read_to_end(it, args, callee):
+        return ok(0) if decide("read_to_end") else err(Opaque("io::Error"))
+
+    def to_string(it, args, callee):
+        return ok(SString([ord("{"), ord("}")])) if decide("to_string") else err(Opaque("serde_json::Error"))
+
+    def fs_write(it, args, callee):
+        ctx["writes"] = ctx.get("writes", 0) + 1
+        return ok(UNIT) if decide("fs_write") else err(Opaque("io::Error"))
+
+    def path(it, args, callee):
+        return Opaque("PathBuf", ())
+
+    def parser(it, args, callee):
+        return Opaque("Parser")
+
+    def vec_u8(it, args, callee):
+        return SVec([])
+
+    def ps_new(it, args, callee):
+        return mk_phonetic_suggestion(it.p, [], user_autocorrect=args[0])
+    return {"PhoneticSuggestion::new": ps_new, "fs::read": fs_read, "from_slice": from_slice, "File::open": file_open, "File::metadata": metadata,
+            "Metadata::modified": modified, "fs::metadata": metadata, "Metadata::len": meta_len, "Read::read_to_end": read_to_end,
+            "serde_json::to_string": to_string, "fs::write": fs_write, "Config::get_user_phonetic_selection_data": path,
+            "Config::get_user_phonetic_autocorrect": path, "Parser::new_phonetic": parser, "Parser::new_regex": parser}
+
+
+def make_userfile(shape):
+    from fixedlib import mk_config
+    ev = shape["event"]
+
+    def build(st, it):
+        prog = it.p
+        ctx = dict(shape=shape)
+        ov = io_overrides(st, ctx)
+        it.env["overrides"] = ov
+        cfg, opts = mk_config(prog, st, {"phonetic_suggestion": True})
+        ctx["opts"] = opts
+        st.ctx = ctx
+        cr = Ref([cfg], 0)
+
+        def run():
+            if ev == "new":
+                fn = prog.find_fn("PhoneticMethod", "new")
+                pm = it.call_function(fn, [cr])
+                ctx["pm"] = pm
+                return pm
+            # a method object in an arbitrary state
+            shown = [mk_rank(prog, "Other", [st.sym_char("o%d" % i)], st.sym_bv("od%d" % i, 8)) for i in range(2)]
+            prev = st.sym_bv("prev_selection", 64)
+            st.assume(z3.ULT(prev, 2))
+            sel_map = SMap("selections", [[(0x61,), SString([0x0995])]])
+            pm = mk_phonetic_method(prog, [0x61], mk_phonetic_suggestion(prog, shown, cache=SMap("cache", [[(0x61,), SVec([mk_rank(prog, "Other", [0x0995], 10)])]])),
+                                    sel_map, prev, modified=st.sym_bv("old_mtime", 64))
+            ctx["pm"] = pm
+            ctx["sel_map"] = sel_map
+            ctx["before"] = [(k, tuple(v.elems)) for k, v in sel_map.entries]
+            me = Ref([pm], 0, True)
+            if ev == "update":
+                fn = prog.find_trait_fn("PhoneticMethod", "Method", "update_engine")
+                return it.call_function(fn, [me, cr])
+            idx = st.sym_bv("commit_index", 64)
+            st.assume(z3.ULT(idx, 2))
+            ctx["index"] = idx
+            fn = prog.find_trait_fn("PhoneticMethod", "Method", "candidate_committed")
+            return it.call_function(fn, [me, idx, cr])
+        return run
+
+    def on_path(st, it, out):
+        prog = it.p
+        c = st.ctx
+        model = st.get_model()
+
+        def inputs(m):
+            return dict(event=ev, environment=[[n, bool(g)] for n, g in c.get("io_log", [])])
+
+        def pred(m):
+            return dict(panic=out[1].message) if out[0] == "panic" else dict(ok=True)
+        recs = [dict(kind="witness", inputs=inputs(model), predicted=pred(model))]
+        log = c.get("io_log", [])
+        failed = [n for n, g in log if not g]
+        recs.append(dict(kind="cover", name="cover:%s_%s" % (ev, "fault" if failed else "clean")))
+        if out[0] == "panic":
+            recs.append(dict(kind="violation", clause="no_panic", inputs=inputs(model), predicted=pred(model)))
+            return recs
+        clauses = []
+        pm = c["pm"]
+        if ev == "new":
+            sel = pm_field(prog, pm, "selections")
+            # unreadable content is treated as if the file were absent
+            sel_failed = any(n in ("fs_read", "from_slice") and not g for n, g in log[:2])
+            if sel_failed:
+                clauses.append(("unreadable_store_is_treated_as_absent", isinstance(sel, SMap) and len(sel.entries) == 0 and sel.oracle is None and sel not in c.get("loaded", [])))
+        if ev == "commit":
+            # a failed save loses at most that one learned choice
+            after = [(k, tuple(v.elems)) for k, v in c["sel_map"].entries]
+            extra = [e for e in after if e not in c["before"]]
+            kept = all(e in after or any(e[0] == a[0] for a in after) for e in c["before"])
+            clauses.append(("failed_save_loses_at_most_that_choice", len(extra) <= 1 and kept))
+            buf = pm_field(prog, pm, "buffer").elems
+            clauses.append(("commit_ends_the_word", len(buf) == 0))
+        return recs + eval_clauses(st, clauses, lambda cn, m: dict(kind="violation", clause=cn, inputs=inputs(m), predicted=pred(m)))
+    return build, on_path
+
+
+USERFILE_FAULTS = [
+    ("selection store holds invalid JSON", [{"op": "write_user_file", "name": "phonetic-candidate-selection.json", "content": "{\"a\":"}]),
+    ("selection store is empty", [{"op": "write_user_file", "name": "phonetic-candidate-selection.json", "content": ""}]),
+    ("selection store has the wrong shape", [{"op": "write_user_file", "name": "phonetic-candidate-selection.json", "content": "[1,2]"}]),
+    ("selection store holds a number value", [{"op": "write_user_file", "name": "phonetic-candidate-selection.json", "content": "{\"a\":1}"}]),
+    ("user auto-correct file holds invalid JSON", [{"op": "write_user_file", "name": "autocorrect.json", "content": "{"}]),
+    ("user auto-correct file has the wrong shape", [{"op": "write_user_file", "name": "autocorrect.json", "content": "{\"a\":[1]}"}]),
+]
+
+
+def userfile_native(vs, ev):
+    """Re-find the crash natively with real files (only what a user or a crashed save can produce)."""
+    keys = None
+    import obl_assembly
+    keys = obl_assembly.char_keys()
+    cfg = {"layout": "avro_phonetic", "database": REPO + "/data", "opts": {"phonetic_suggestion": True}}
+    scs = []
+    names = []
+    if ev == "new":
+        for name, steps in USERFILE_FAULTS:
+            scs.append({"steps": steps + [{"op": "new", "config": cfg}, {"op": "key", "key": keys["a"], "sel": 0}]})
+            names.append(name)
+    elif ev == "update":
+        for name, steps in USERFILE_FAULTS[4:]:
+            st2 = [dict(s, mtime_plus=5) for s in steps]
+            scs.append({"steps": [{"op": "new", "config": cfg}, {"op": "key", "key": keys["a"], "sel": 0}, {"op": "finish"}] + st2 + [{"op": "update", "config": cfg}, {"op": "key", "key": keys["a"], "sel": 0}]})
+            names.append(name + " when the configuration is re-loaded")
+    else:
+        for name, fault in (("user-data directory is missing", [{"op": "remove_user_dir"}]), ("user-data directory is read-only", [{"op": "chmod_user_dir", "mode": 0o555}]),
+                            ("user-data directory path is a file", [{"op": "user_dir_as_file"}])):
+            scs.append({"steps": [{"op": "new", "config": cfg}] + fault + [{"op": "key", "key": keys["a"], "sel": 0}, {"op": "commit", "index": 1}, {"op": "key", "key": keys["a"], "sel": 0}]})
+            names.append(name + " when a learned choice is saved")
+    res = run_replay(scs)
+    out = []
+    for name, sc, r in zip(names, scs, res):
+        for x in r["results"]:
+            if "panic" in x:
+                out.append((name, sc, x))
+                break
+    return out
+
+
+def obl_userfiles(check, budget_s=None):
+    shapes = [dict(event="new"), dict(event="update"), dict(event="commit")]
+    check.bounds["userfile_faults"] = dict(events="context creation (PhoneticMethod::new), update_engine, candidate_committed",
+                                           environment="every file-system and serde_json call may fail or succeed independently (over-approximates absent, empty, truncated-at-any-byte, wrong-shape files, missing or read-only directory)")
+    records, errors, summ = msym.run_shapes(check, "userfile_faults", shapes, make_userfile, budget_s=budget_s)
+    vio = [r for r in records if r["kind"] == "violation"]
+    covers = set(r["name"] for r in records if r["kind"] == "cover")
+    name = "userfile_faults"
+    if errors:
+        check.obligation(name, "mirsym", "inconclusive", "executor gave up: " + "; ".join(sorted(set(errors))[:3]))
+        return
+    need = ["cover:new_fault", "cover:new_clean", "cover:update_clean", "cover:commit_clean"]
+    if any(n not in covers for n in need):
+        check.obligation(name, "mirsym", "inconclusive", "vacuity: missing reachability witnesses %s" % [n for n in need if n not in covers])
+        return
+    detail = "%d paths over %d environment behaviours" % (summ["paths"], summ["paths"])
+    if not vio:
+        check.obligation(name, "mirsym", "held", detail + "; no panic path, state clauses unsat")
+        return
+    status = "held"
+    worst = {"held": 0, "known": 1, "inconclusive": 2, "violated": 3}
+    by_ev = {}
+    for v in vio:
+        by_ev.setdefault((v["inputs"]["event"], v["clause"]), []).append(v)
+    for (ev, clause), vs in sorted(by_ev.items()):
+        if clause != "no_panic":
+            check.obligation(name + ":" + clause, "mirsym", "inconclusive", "state clause violated under the environment oracle, no native search for it: %s" % json.dumps(vs[0]["inputs"])[:300])
+            status = "inconclusive" if worst["inconclusive"] > worst[status] else status
+            continue
+        found = userfile_native(vs, ev)
+        if not found:
+            check.obligation(name + ":" + ev, "mirsym", "inconclusive", "panic path under the environment oracle was not re-found with real files: %s" % json.dumps(vs[0]["inputs"])[:300])
+            status = "inconclusive" if worst["inconclusive"] > worst[status] else status
+            continue
+        for fname, sc, obs in found:
+            check.stats["traces_validated"] += 1
+            st = check.finding("user files: " + fname, "%s: %s" % (fname, obs["panic"]), dict(scenario=sc, observed=obs, solver_counterexample=vs[0]["inputs"]))
+            if worst[st] > worst[status]:
+                status = st
+        check.sample(dict(obligation=name, counterexample=vs[0]["inputs"], native=[f[0] for f in found]))
+    check.obligation(name, "mirsym", status, detail + "; %d panic paths" % len(vio))
